@@ -28,6 +28,8 @@ pub fn leaf_alphabet() -> Vec<String> {
         CBOR::to_tagged_value(40003u64, vec![CBOR::from(0u64), CBOR::from(0u64), CBOR::to_byte_string(Vec::<u8>::new())]),
         CBOR::to_byte_string(vec![9u8; 32]), 40000u64.into(),
     ];
+    for pad in 0..4usize { v.push(format!("{}{}", "a".repeat(37 + pad), "é✓".repeat(12)).as_str().into()); }
+    v.push("é".repeat(60).as_str().into());
     let mut m = Map::new(); m.insert(1u64, "a"); m.insert("k", vec![1u64]); m.insert(-1i64, false);
     v.push(m.into());
     v.push(Map::new().into());
